@@ -2,7 +2,9 @@
 C02 — operations run in the order their scheduling calls were made.
 -/
 import DesyncModel.Spec
-import DesyncModel.Tables
+import DesyncModel.Tables.Sync
+import DesyncModel.Tables.TrySync
+import DesyncModel.Tables.Claim
 import DesyncModel.FactFifo
 import DesyncModel.Lemmas
 import DesyncModel.Setters
